@@ -599,7 +599,7 @@ def words_of(s):
     return [w for w in re.split(r"[^A-Za-z0-9_.:/+-]+", s.lower()) if w]
 
 
-def expected_keyword_words(spec, kw, method, n_atoms, heavy):
+def expected_keyword_words(spec, kw, method, n_atoms, heavy, all_ecp=False):
     """For every requested keyword: the words that have to show up in the files (or on the xTB command
     line), or the documented reason why this program handles it elsewhere."""
     import autode.wrappers.keywords as kws
@@ -622,6 +622,9 @@ def expected_keyword_words(spec, kw, method, n_atoms, heavy):
             elif n_atoms == 1:
                 why = "no optimisation (hence no cycle limit) for a single atom"
             tr = str(int(k))
+        elif isinstance(k, kws.BasisSet) and prog in ("g09", "g16") and all_ecp:
+            why = ("Gaussian: with an ECP the basis keyword becomes genecp + basis.gbs, which lists the basis only for the elements "
+                   "WITHOUT an ECP (G09.py:233-263); every atom here carries the ECP, so the basis set is not used at all")
         elif isinstance(k, kws.ECP):
             if not heavy or prog in ("orca",):
                 why = "ECP only printed when heavy atoms are present (ORCA: implicit with def2 basis)"
@@ -747,7 +750,9 @@ def run_case(spec, workdir, registry=False, mol=None):
         except aex.SolventUnavailable as e:
             res["rejected"] = "SolventUnavailable"
             return res
-        res["kw_expected"] = expected_keyword_words(spec, calc.input.keywords, method, mol.n_atoms, res["n_heavy"] > 0)
+        ecp_kw = calc.input.keywords.ecp
+        all_ecp = ecp_kw is not None and all(a.atomic_number >= ecp_kw.min_atomic_number for a in mol.atoms)
+        res["kw_expected"] = expected_keyword_words(spec, calc.input.keywords, method, mol.n_atoms, res["n_heavy"] > 0, all_ecp)
         res["requested_kw"] = [repr(k) for k in calc.input.keywords]
         if spec["prog"] == "nwchem":
             import autode.wrappers.keywords as kws_
